@@ -211,7 +211,7 @@ var atomicFuncs = map[string]bool{"AddInt32": true, "AddInt64": true, "AddUint32
 	"SwapInt64": true, "CompareAndSwapInt32": true, "CompareAndSwapInt64": true, "CompareAndSwapUint32": true}
 var ctxMap = map[string]string{
 	"WithCancel": "WithCancel", "WithTimeout": "WithTimeout", "WithDeadline": "WithDeadline",
-	"WithValue": "WithValue", "Background": "Background", "TODO": "TODO", "Cause": "Cause",
+	"WithValue": "WithValue", "Background": "Background", "TODO": "TODO", "Cause": "Cause", "AfterFunc": "AfterFunc",
 }
 var ctxKeep = map[string]bool{"Context": true, "CancelFunc": true, "Canceled": true, "DeadlineExceeded": true}
 var timeMap = map[string]string{"Now": "TimeNow", "Until": "TimeUntil", "Since": "TimeSince", "Sleep": "TimeSleep",
